@@ -117,6 +117,7 @@ func checkC04(e *Env) {
 	forAllIterations(e, "FORALL", wso, "param:sections", noCfg,
 		gate.CallOK("T.len", "(*cbor.Encoder).EncodeUint", "call:cbor.NewEncoder(local:b)", "conv(invoke:bundle.section.Len(param:sections[rangeidx]))"))
 	sectionStorage(e)
+	moduleErrorsConsumed(e, erruseEntries, 20, "bundle.")
 
 	// (c) footer
 	wf := e.fn("bundle.writeFooter")
